@@ -45,6 +45,8 @@ func (r *BasicPrivateTokenRequest) Marshal() []byte {
 }
 
 func (r *BasicPrivateTokenRequest) Unmarshal(data []byte) bool {
+	// Forget the cached encoding of any value held before
+	r.raw = nil
 	s := cryptobyte.String(data)
 
 	var tokenType uint16
